@@ -242,6 +242,7 @@ struct SimConfig
   bool deny_in_place = false; // impl_deny_access succeeds and hands back the in-sandbox pointer (as noop does)
   int subpage_slot = 0; // regions smaller than a page: which size-aligned slot of the page they occupy
   bool lookup_null_on_missing = false; // a symbol the library does not export resolves to null (dlsym style) instead of aborting
+  bool null_to_finder = false; // (registry flavour) impl_is_in_same_sandbox asks the core's finder about null addresses too instead of answering itself
   bool total_as_mask = false;
   size_t location_shift = 0; // impl_get_memory_location reports an address this many bytes BEFORE representation 0 (a control block in front of the guest's address space); the core never relies on the location // impl_get_total_memory reports size-1 (the convention of the test suite's own backend)
 };
@@ -610,7 +611,7 @@ protected:
   static inline bool impl_is_in_same_sandbox(const void* p1, const void* p2, Finder finder)
   {
     if (cfg.registry) {
-      if (p1 == nullptr || p2 == nullptr)
+      if ((p1 == nullptr || p2 == nullptr) && !cfg.null_to_finder)
         return p1 == p2;
       in_finder = true;
       bool same = false;
